@@ -567,6 +567,17 @@ func regConcrete(name string, f func(string) string) {
 }
 
 func (in *Interp) bytesEq(x, y []Value) *Term {
+	// marshalled blobs compare by content
+	if len(x) == 1 && len(y) == 1 {
+		bx, okx := x[0].(Blob)
+		by, oky := y[0].(Blob)
+		if okx || oky {
+			if !(okx && oky) {
+				return False
+			}
+			return in.deepEq(bx.V, by.V)
+		}
+	}
 	if d, c := quickCmp(x, y); d {
 		return BoolConst(c == 0)
 	}
